@@ -466,7 +466,10 @@ pub fn make_rig<V: VringT<GM> + Clone + Send + Sync + 'static>(cfg: Cfg, adapter
             d.start(&mut listener).unwrap();
             let hs = d.get_epoll_handlers();
             let reg: Box<dyn Fn(usize, i32, u64) -> std::io::Result<()> + Send> =
-                Box::new(move |t, fd, id| hs[t].register_listener(fd, EventSet::IN, id));
+                Box::new(move |t, fd, id| match hs.get(t) {
+                    Some(h) => h.register_listener(fd, EventSet::IN, id),
+                    None => Err(std::io::Error::other("the daemon has no worker for this mask")),
+                });
             let d = Arc::new(Mutex::new(Some(d)));
             let d2 = d.clone();
             let dropper: Box<dyn FnOnce() + Send> = Box::new(move || {
@@ -519,18 +522,25 @@ pub fn make_rig<V: VringT<GM> + Clone + Send + Sync + 'static>(cfg: Cfg, adapter
     };
     // the workers name themselves when they start running: wait until all of them can be seen, so that a later
     // undercount means a worker has really terminated
+    static SEEN_MISSING: std::sync::atomic::AtomicBool = std::sync::atomic::AtomicBool::new(false);
     let t0 = Instant::now();
+    // generous the first time; once a daemon of this process has been seen with fewer workers than masks, later ones get 1 s
+    let limit = if SEEN_MISSING.load(std::sync::atomic::Ordering::SeqCst) { 1 } else { 15 };
     while live_workers() < nthreads {
-        if t0.elapsed() > Duration::from_secs(60) {
-            eprintln!("TOOL-ERROR: worker threads did not start within 60 s");
-            std::process::exit(3);
+        if t0.elapsed() > Duration::from_secs(limit) {
+            // fewer workers than masks: recorded (the quiescence barrier then reports the missing worker), not a tool error
+            SEEN_MISSING.store(true, std::sync::atomic::Ordering::SeqCst);
+            break;
         }
         std::thread::sleep(Duration::from_micros(100));
     }
     // one barrier listener per worker
     for t in 0..nthreads {
         let e = Arc::new(EventFd::new(libc::EFD_NONBLOCK).unwrap());
-        (rig.handlers_reg)(t, e.as_raw_fd(), rig.barrier_id).expect("register barrier");
+        if (rig.handlers_reg)(t, e.as_raw_fd(), rig.barrier_id).is_err() {
+            // a worker that should exist does not: every step reports the workers as not alive
+            rig.alive = false;
+        }
         rig.tb.listeners.lock().unwrap().push((t, rig.barrier_id, e.clone()));
         rig.barrier.push(e);
     }
